@@ -187,6 +187,16 @@ func genExtras(r *rng, tag bool) []hdr {
 		}
 		lead := []hdr{{[]byte(""), randHeaderValue(r)}}
 		if r.coin(1, 2) {
+			// the continuation line itself imitates a header of the leading block (" parent <oid>"):
+			// a parser that trims leading blanks would read it as one (seeded change C16)
+			v2 := hex.EncodeToString(randOID(r))
+			if tag {
+				lead = []hdr{{[]byte(""), []byte([]string{"object " + v2, "type blob"}[r.n(2)])}}
+			} else {
+				lead = []hdr{{[]byte(""), []byte([]string{"parent " + v2, "tree " + v2}[r.n(2)])}}
+			}
+		}
+		if r.coin(1, 2) {
 			lead = append(lead, hdr{[]byte(""), []byte("second continuation line")})
 		}
 		hs = append(append(lead, fake), hs...)
